@@ -30,6 +30,9 @@ type Scenario struct {
 	Faulty bool // uses fault injection (separate batch from fault-free scenarios)
 }
 
+// cleanDelta is the smallest number of goroutines a bubble has been seen to hold at its end (a run without leaks).
+var cleanDelta = -1
+
 var scenarios = map[string]*Scenario{}
 var scenarioOrder []string
 
@@ -98,6 +101,7 @@ func execute(t *testing.T, scn *Scenario, tape *Tape, trace bool) (res *RunResul
 func execBubble(t *testing.T, scn *Scenario, tape *Tape, trace bool, pre any, out **RunResult) {
 	var res *RunResult
 	defer func() { *out = res }()
+	before := runtime.NumGoroutine()
 	synctest.Test(t, func(t *testing.T) {
 		w := NewWorld(tape, scn.Name, trace)
 		w.Pre = pre
@@ -119,7 +123,13 @@ func execBubble(t *testing.T, scn *Scenario, tape *Tape, trace bool, pre any, ou
 			scn.Run(w)
 		}()
 		w.wait()
-		if !scn.NoLeakCheck {
+		// Dumping every goroutine is expensive once earlier (failing) runs have left goroutines behind for good, so it
+		// is only done when this bubble holds more goroutines than a clean run does (root + synctest plumbing).
+		extra := runtime.NumGoroutine() - before
+		if cleanDelta < 0 || extra < cleanDelta {
+			cleanDelta = extra
+		}
+		if !scn.NoLeakCheck && extra > cleanDelta {
 			for _, g := range bubbleGoroutines() {
 				class := "leak"
 				if !g.Repo {
